@@ -164,6 +164,18 @@ def check_radar_stream(rng, tier, report):
         alive = st is None
         r.send(b"q"); st2 = r.wait_exit(); r.kill(); f.stop()
         report("radar/limit-parsing-" + name, alive and got == want17 and st2 == 0, {"alive_during_feed": alive, "rows": got, "expected": want17, "exit_after_q": st2})
+    # every malformed line of the list, by construction (not by the corpus' dice), before valid traffic: with and without --limit-parsing the client
+    # must skip them all, stay alive, and count the valid frames that follow (seed C16_f: `*;` under --limit-parsing indexed an empty payload)
+    tail = [l for l in lines if l not in MALFORMED and l not in LONG][:12]
+    for args, formats, name in ((("--limit-parsing",), (17,), "limit-parsing-"), ((), (17, 18), "")):
+        feed_lines = list(MALFORMED) + tail
+        wantm = expected_counts(feed_lines, formats=formats)
+        r, f, snap, st = run_radar_feed([("send", b"".join(feed_lines)), ("sleep", 2.0)], args=args, wait=0.8)
+        got = airplanes_rows(snap)
+        alive = st is None
+        r.send(b"q"); st2 = r.wait_exit(); r.kill(); f.stop()
+        report("radar/" + name + "every-malformed-line", alive and got == wantm and st2 == 0, {"alive_during_feed": alive, "rows": got, "expected": wantm, "exit_after_q": st2,
+               "panic": "panicked" in r.raw.decode(errors="ignore")})
     # disconnect without retry: clean exit
     r, f, snap, st = run_radar_feed([("send", b"".join(lines[:10])), ("sleep", 1.0), ("close",)], wait=1.5)
     st = r.wait_exit()
